@@ -212,9 +212,28 @@ void c19_env_reset(void)
 
 /* ------------------------------------------------------------------ pthread (solver build only) */
 #ifdef VERIF_CBMC
-/* mutex = flag; lock asserts "not held" (self deadlock), unlock asserts "held" */
-int pthread_mutex_init(pthread_mutex_t *m, const pthread_mutexattr_t *a) { (void) a; *(int *) m = 0; return 0; }
+/* lock discipline: a table of held mutexes (the mutex objects themselves are never written: a store through a
+ * pthread_mutex_t* that may point to 13 different members of the daemon's state object stalls symex);
+ * lock asserts "not already held" (self deadlock), unlock asserts "held" */
+static const void *c19_held[4];
+int pthread_mutex_init(pthread_mutex_t *m, const pthread_mutexattr_t *a) { (void) m; (void) a; return 0; }
 int pthread_mutex_destroy(pthread_mutex_t *m) { (void) m; return 0; }
-int pthread_mutex_lock(pthread_mutex_t *m) { assert(*(int *) m == 0); *(int *) m = 1; return 0; }
-int pthread_mutex_unlock(pthread_mutex_t *m) { assert(*(int *) m == 1); *(int *) m = 0; return 0; }
+int pthread_mutex_lock(pthread_mutex_t *m)
+{
+  unsigned i; int slot = -1;
+  for (i = 0; i < 4; i++) { assert(c19_held[i] != (const void *) m); if (c19_held[i] == NULL && slot < 0) slot = (int) i; }
+  assert(slot >= 0);
+  c19_held[slot] = (const void *) m;
+  return 0;
+}
+int pthread_mutex_unlock(pthread_mutex_t *m)
+{
+  unsigned i; int found = 0;
+  for (i = 0; i < 4; i++) if (c19_held[i] == (const void *) m) { c19_held[i] = NULL; found = 1; }
+  assert(found);
+  return 0;
+}
+int c19_locks_held(void) { unsigned i; int n = 0; for (i = 0; i < 4; i++) n += c19_held[i] != NULL; return n; }
+#else
+int c19_locks_held(void) { return 0; }
 #endif
